@@ -3,11 +3,12 @@
    connected to them by the C10/C11 refinements (`get_kmer` = `sub`, `extend_right` = `extend_right`).
    `score` is the caller's closure `Fn(&P) -> usize`: ANY function.
 
-   Panics: the two `assert!`s of `scan`, and `k - p` underflowing (debug: arithmetic panic; release: the
-   wrapped bound makes `find_min` run off the end of the sequence, an index panic) give `None`.  Under
-   these guards no index of the loop leaves the sequence, so the inner functions are total here
-   (`nth`/`sub` with defaults); that the guarded run really stays in bounds is part of what the
-   correspondence run checks (a debug panic would surface as `!`).
+   Two versions of the same code: first with total index operations (`nth`/`sub` with defaults) behind the
+   guards of [scan_guard] - the two `assert!`s of `scan`, and `k - p` underflowing (debug: arithmetic panic;
+   release: the wrapped bound makes `find_min` run off the end of the sequence, an index panic) give `None`;
+   then (section ScannerChecked) with EVERY index operation and subtraction checked.  The second is what the
+   correspondence driver runs and what simple_scan / msp_sequence call; Proofs/ScanProofs.v proves that the
+   two coincide on all inputs (scan_checked_eq), so the proofs can work on the first.
 
    The casts `as u32` / `as u16` of the interval synthesis are explicit; the width of the `len` cast is a
    parameter ([wl], 16 in the code) so that the wrap-around can also be exhibited on a small instance. *)
@@ -106,6 +107,102 @@ Section Scanner.
   Definition scan : option (list interval) := scan_w 16.
 End Scanner.
 
+(* ---------------------------------------------------------------------------------------------------
+   The same code with EVERY index operation and usize subtraction checked (None = the Rust code panics:
+   slice index out of range in get_kmer / get, arithmetic underflow in debug).  This is the version the
+   correspondence driver runs; Proofs/ScanProofs.v shows that it coincides with the total version above
+   on all inputs (scan_checked_eq), i.e. under the guards of [scan_guard] no inner panic is possible. *)
+Section ScannerChecked.
+  Variable score : dna -> N.
+  Variable seq : dna.
+  Variable k p : nat.
+
+  Definition sub_usize (a b : nat) : option nat := if b <=? a then Some (a - b) else None.
+
+  (* seq.get_kmer::<P>(pos): &self.0[pos..pos + K::k()] *)
+  Definition mp_c (pos : nat) : option minpos :=
+    if pos + p <=? length seq then
+      let kmer := sub pos p seq in Some (mkMinPos (score kmer) pos kmer)
+    else None.
+
+  (* seq.get(pos + P::k() - 1) *)
+  Definition incr_c (m : minpos) : option minpos :=
+    let pos := mpos m + 1 in
+    match nth_error seq (pos + p - 1) with
+    | Some b => let kmer := extend_right (mkmer m) b in Some (mkMinPos (score kmer) pos kmer)
+    | None => None
+    end.
+
+  Fixpoint find_min_loop_c (n : nat) (min_pos current : minpos) : option minpos :=
+    match n with
+    | O => Some min_pos
+    | S n' => match incr_c current with
+              | Some current => find_min_loop_c n' (mp_min min_pos current) current
+              | None => None
+              end
+    end.
+  Definition find_min_c (start stop : nat) : option minpos :=
+    match mp_c start with
+    | Some min_pos => find_min_loop_c (stop - start) min_pos min_pos
+    | None => None
+    end.
+
+  Definition scan_step_c (st : scan_state) (i : nat) : option scan_state :=
+    let '(min_pos, end_pos, acc) := st in
+    match incr_c end_pos with
+    | None => None
+    | Some end_pos =>
+        if mpos min_pos <? i then
+          match find_min_c i (i + k - p) with
+          | Some min_pos => Some (min_pos, end_pos, (i, min_pos) :: acc)
+          | None => None
+          end
+        else if (mval end_pos <? mval min_pos)%N then Some (end_pos, end_pos, (i, end_pos) :: acc)
+        else Some (min_pos, end_pos, acc)
+    end.
+
+  Fixpoint fold_c (l : list nat) (st : scan_state) : option scan_state :=
+    match l with
+    | [] => Some st
+    | i :: r => match scan_step_c st i with Some st' => fold_c r st' | None => None end
+    end.
+
+  Fixpoint synth_c (l : list (nat * minpos)) : option (list sivl) :=
+    match l with
+    | [] => None                                   (* min_positions.len() - 1 *)
+    | (start_pos, min_pos) :: rest =>
+        match rest with
+        | [] => match sub_usize (length seq) start_pos with
+                | Some ln => Some [mkS (mkmer min_pos) (mpos min_pos) start_pos ln]
+                | None => None
+                end
+        | (next_pos, _) :: _ =>
+            match sub_usize (next_pos + k - 1) start_pos, synth_c rest with
+            | Some ln, Some t => Some (mkS (mkmer min_pos) (mpos min_pos) start_pos ln :: t)
+            | _, _ => None
+            end
+        end
+    end.
+
+  Definition scan_checked_w (wl : N) : option (list interval) :=
+    (* assert!(self.seq.len() >= self.k); assert!(self.seq.len() < 1 << 32); P::k() >= 1 by type *)
+    if (k <=? length seq) && (N.of_nat (length seq) <? 2 ^ 32)%N && (1 <=? p) then
+      match sub_usize k p with                     (* k - p *)
+      | None => None
+      | Some kp =>
+          match find_min_c 0 kp, mp_c kp with
+          | Some min_pos, Some end_pos =>
+              match fold_c (List.seq 1 (length seq - k)) (min_pos, end_pos, [(0, min_pos)]) with
+              | Some (_, _, acc) => option_map (map (cast_iv wl)) (synth_c (rev acc))
+              | None => None
+              end
+          | _, _ => None
+          end
+      end
+    else None.
+  Definition scan_checked : option (list interval) := scan_checked_w 16.
+End ScannerChecked.
+
 (* MspIntervalP::bucket(): min_rc of the minimizer, to_u64 *)
 Definition bucket_of (minimizer : dna) : N := rank (canon minimizer).
 
@@ -118,7 +215,7 @@ Definition perm_score (perm : list N) (rcmode : bool) (x : dna) : N :=
 
 Definition simple_scan (seq : dna) (k p : nat) (perm : list N) (rcmode : bool) : option (list (N * N * N)) :=
   if p <=? 8 then
-    match scan (perm_score perm rcmode) seq k p with
+    match scan_checked (perm_score perm rcmode) seq k p with
     | Some ivs => Some (map (fun x => ((bucket_of (iv_minimizer x) mod 2 ^ 16)%N, iv_start x, iv_len x)) ivs)
     | None => None
     end
